@@ -67,6 +67,9 @@ class Check(HCheck):
         # short stems with unusual byte values, stems that are byte-prefixes of one another
         odd = [A + x for x in (b"\x00|", b"\xff\xfe|", b"p|", b"{|", b"}|", b"p:x\x00|", b"p:x|", b"p:xx|")]
         sp.append(Space(Cfg("never"), [al.page(u, i % 2 == 1) for i, u in enumerate(odd if thorough else odd[:7])], 5 if thorough else 4, name="order/bytes"))
+        # every non-separator byte value once as a whole stem body and once inside a longer stem
+        allb = [A + b"p:" + bytes([b]) + b"|" for b in range(256) if b != 0x7C] + [A + b"q:x" + bytes([b]) + b"y|" for b in range(256) if b != 0x7C]
+        sp.append(Space(Cfg("never"), [al.page(u, i % 2 == 0) for i, u in enumerate(allb)], 1, roots=[al.R0, (al.page(A + b"p:\x40|"), al.page(A + b"q:x\x40y|"))], name="bytes/all-values"))
         # exhaustive small batch shapes (depth 1 from prepared states): every crawl batch with
         # <= 2 sources x <= 2 targets and every link batch of <= 2 (thorough 3) links over 4 pages
         P4 = [A, Ax, Axy, Ab]
